@@ -33,7 +33,7 @@ Definition scalars (s : list Z) : Prop := Forall (fun c => scalar c = true) s.
 Fixpoint wfj (v : json) : Prop :=
   match v with
   | JNull | JBool _ => True
-  | JInt z => - MAXFIX <= z <= MAXFIX
+  | JInt z => - MAXFIX - 1 <= z <= MAXFIX
   | JFloat => False
   | JStr s => scalars s
   | JArr l => (fix all (l : list json) : Prop := match l with [] => True | x :: r => wfj x /\ all r end) l
@@ -106,8 +106,8 @@ Qed.
 
 Lemma follow_plain rest v : follow rest ->
   match rest with
-  | c :: r => if c =? 46 then (JFloat, skip_digits r)
-              else if c =? 101 then (JFloat, skip_digits (match r with c2 :: t => if (c2 =? 43) || (c2 =? 45) then t else r | [] => r end))
+  | c :: r => if c =? 46 then (JFloat, skip_exp (skip_digits r))
+              else if (c =? 101) || (c =? 69) then (JFloat, skip_exp rest)
               else (v, rest)
   | [] => (v, rest)
   end = (v, rest).
@@ -126,6 +126,7 @@ Proof.
       change (45 =? 123) with false. change (45 =? 91) with false. change (45 =? 34) with false.
       change (45 =? 45) with true. cbn [orb]. cbv beta iota.
       unfold read_number. change (45 =? 43) with false. change (45 =? 45) with true. cbv beta iota.
+      change (-1 =? 1) with false. cbv beta iota.
       rewrite read_digits_dec_pos by (try apply follow_nodigit; try assumption; unfold MAXFIX in *; lia).
       cbv beta iota zeta. rewrite (follow_plain rest (JInt (-1 * - z)) Hf).
       cbn [utf8_val]. do 3 f_equal. lia.
@@ -140,6 +141,7 @@ Proof.
       unfold read_number.
       assert (48 + d0 =? 43 = false) as -> by lia. assert (48 + d0 =? 45 = false) as -> by lia.
       change ((48 + d0) :: t0 ++ rest) with (((48 + d0) :: t0) ++ rest). rewrite <- Eh.
+      change (1 =? 1) with true. cbv beta iota.
       rewrite read_digits_dec_pos by (try apply follow_nodigit; try assumption; unfold MAXFIX in *; lia).
       cbv beta iota zeta. rewrite (follow_plain rest (JInt (1 * z)) Hf).
       cbn [utf8_val]. do 3 f_equal. lia.
